@@ -48,4 +48,469 @@ theorem evalStr_lits (env : List (Str × Str)) (s : Str) : evalStr env (s.map Pi
   | nil => rfl
   | cons c r ih => simp [evalStr, ih]
 
+/-! ## the printed build line is parsed back (`parse_print`) -/
+
+/-- a name the emission can put on a build line and Ninja can read back -/
+def GoodName (p : Str) : Prop := p ≠ [] ∧ ∀ c ∈ p, PlainChar c
+
+def blanks (k : Nat) : Str := List.replicate k ' '
+
+def isSep (c : Char) : Prop := c = ':' ∨ c = '|' ∨ c = '\n'
+
+theorem eatWs_blanks_sep (k : Nat) (c1 : Char) (h1 : isSep c1) (t : Str) : eatWs (blanks k ++ c1 :: t) = c1 :: t := by
+  induction k with
+  | zero => rcases h1 with h | h | h <;> subst h <;> simp [blanks, eatWs]
+  | succ k ih => simpa [blanks, List.replicate_succ, eatWs] using ih
+
+theorem eatWs_quote (p : Str) (hp : GoodName p) (t : Str) : eatWs (quoteChars p ++ t) = quoteChars p ++ t := by
+  obtain ⟨hne, hpl⟩ := hp
+  cases p with
+  | nil => exact absurd rfl hne
+  | cons c r =>
+    obtain ⟨hn, _, _⟩ := hpl c (by simp)
+    by_cases h1 : c = '$'
+    · subst h1; simp [quoteChars, eatWs]
+    · by_cases h2 : c = ' '
+      · subst h2; simp [quoteChars, eatWs]
+      · by_cases h3 : c = ':'
+        · subst h3; simp [quoteChars, eatWs]
+        · simp only [quoteChars, h1, h2, h3, or_self, if_false, List.cons_append]
+          unfold eatWs
+          split <;> simp_all
+
+theorem readPath_quote (n : Nat) (p : Str) (hp : GoodName p) (c0 : Char) (h0 : isTerm c0) (t : Str)
+    (hn : p.length + 1 ≤ n) :
+    readPath n (quoteChars p ++ c0 :: t) = .ok (p.map Piece.lit, eatWs (c0 :: t)) := by
+  unfold readPath
+  rw [readEval_quote p hp.2 c0 h0 t [] n hn]
+  simp
+
+theorem readPath_empty (n : Nat) (c1 : Char) (h1 : isSep c1) (t : Str) :
+    readPath (n + 1) (c1 :: t) = .ok ([], c1 :: t) := by
+  rcases h1 with h | h | h <;> subst h <;> simp [readPath, readEval, eatWs]
+
+theorem readPath_blanks_sep (n k : Nat) (c1 : Char) (h1 : isSep c1) (t : Str) :
+    readPath (n + 1) (blanks k ++ c1 :: t) = .ok ([], c1 :: t) := by
+  cases k with
+  | zero => simpa [blanks] using readPath_empty n c1 h1 t
+  | succ k =>
+    have := eatWs_blanks_sep (k + 1) c1 h1 t
+    simp only [blanks, List.replicate_succ, List.cons_append] at this ⊢
+    simp [readPath, readEval, this]
+
+theorem blanks_sep_head (k : Nat) (c1 : Char) (h1 : isSep c1) (t : Str) :
+    ∃ c0 t0, isTerm c0 ∧ blanks k ++ c1 :: t = c0 :: t0 := by
+  cases k with
+  | zero =>
+    refine ⟨c1, t, ?_, by simp [blanks]⟩
+    rcases h1 with h | h | h
+    · exact .inr (.inl h)
+    · exact .inr (.inr (.inl h))
+    · exact .inr (.inr (.inr h))
+  | succ k => exact ⟨' ', blanks k ++ c1 :: t, .inl rfl, by simp [blanks, List.replicate_succ]⟩
+
+theorem lits_ne_nil {p : Str} (h : p ≠ []) : p.map Piece.lit ≠ [] := by
+  cases p with
+  | nil => exact absurd rfl h
+  | cons _ _ => simp
+
+theorem readPaths_join (n : Nat) : ∀ (ps : List Str), (∀ p ∈ ps, GoodName p) → (∀ p ∈ ps, p.length + 1 ≤ n) → 1 ≤ n →
+    ∀ (k : Nat) (c1 : Char), isSep c1 → ∀ (t : Str) (acc : List EvalStr) (fuel : Nat), ps.length + 1 ≤ fuel →
+    readPaths n fuel (joinQ ps ++ blanks k ++ c1 :: t) acc
+      = .ok (acc.reverse ++ ps.map (fun p => p.map Piece.lit), c1 :: t)
+  | [], _, _, hn1, k, c1, h1, t, acc, fuel, hf => by
+    obtain ⟨f, rfl⟩ : ∃ f, fuel = f + 1 := ⟨fuel - 1, by simp at hf; omega⟩
+    obtain ⟨m, rfl⟩ : ∃ m, n = m + 1 := ⟨n - 1, by omega⟩
+    simp only [joinQ, List.nil_append, readPaths, readPath_blanks_sep m k c1 h1 t]
+    simp
+  | [p], hg, hl, hn1, k, c1, h1, t, acc, fuel, hf => by
+    obtain ⟨f, rfl⟩ : ∃ f, fuel = f + 1 := ⟨fuel - 1, by simp at hf; omega⟩
+    have hp := hg p (by simp)
+    obtain ⟨c0, t0, hc0, heq⟩ := blanks_sep_head k c1 h1 t
+    have hrest : eatWs (c0 :: t0) = c1 :: t := by rw [← heq]; exact eatWs_blanks_sep k c1 h1 t
+    have hread := readPath_quote n p hp c0 hc0 t0 (hl p (by simp))
+    have hnil := lits_ne_nil hp.1
+    simp only [joinQ, List.append_assoc, heq, readPaths, hread, hrest]
+    have ih := readPaths_join n [] (by simp) (by simp) hn1 0 c1 h1 t (p.map Piece.lit :: acc) f (by simp at hf ⊢; omega)
+    simp only [joinQ, blanks, List.replicate_zero, List.nil_append] at ih
+    cases hm : p.map Piece.lit with
+    | nil => exact absurd hm hnil
+    | cons a b =>
+      simp only [hm] at ih ⊢
+      rw [ih]
+      simp [hm]
+  | p :: q :: r, hg, hl, hn1, k, c1, h1, t, acc, fuel, hf => by
+    obtain ⟨f, rfl⟩ : ∃ f, fuel = f + 1 := ⟨fuel - 1, by simp at hf; omega⟩
+    have hp := hg p (by simp)
+    have hq := hg q (by simp)
+    have hnil := lits_ne_nil hp.1
+    have hread := readPath_quote n p hp ' ' (.inl rfl) (joinQ (q :: r) ++ blanks k ++ c1 :: t) (hl p (by simp))
+    have hj : ∃ u, joinQ (q :: r) = quoteChars q ++ u := by
+      cases r with
+      | nil => exact ⟨[], by simp [joinQ]⟩
+      | cons x y => exact ⟨' ' :: joinQ (x :: y), by simp [joinQ]⟩
+    obtain ⟨u, hu⟩ := hj
+    have hrest : eatWs (' ' :: (joinQ (q :: r) ++ blanks k ++ c1 :: t)) = joinQ (q :: r) ++ blanks k ++ c1 :: t := by
+      simp only [eatWs]
+      rw [hu]
+      simpa [List.append_assoc] using eatWs_quote q hq (u ++ blanks k ++ c1 :: t)
+    have ih := readPaths_join n (q :: r) (fun x hx => hg x (by simp [hx])) (fun x hx => hl x (by simp [hx])) hn1 k c1 h1 t
+      (p.map Piece.lit :: acc) f (by simp at hf ⊢; omega)
+    have htext : joinQ (p :: q :: r) ++ blanks k ++ c1 :: t
+        = quoteChars p ++ ' ' :: (joinQ (q :: r) ++ blanks k ++ c1 :: t) := by simp [joinQ, List.append_assoc]
+    rw [htext]
+    simp only [readPaths, hread, hrest]
+    cases hm : p.map Piece.lit with
+    | nil => exact absurd hm hnil
+    | cons a b =>
+      simp only [hm] at ih ⊢
+      rw [ih]
+      simp [hm]
+
+/-! ### tokens -/
+
+def IdentName (r : Str) : Prop := r ≠ [] ∧ ∀ c ∈ r, isIdentChar c = true
+
+theorem spanP_ident : ∀ (r : Str), (∀ c ∈ r, isIdentChar c = true) → ∀ (t : Str),
+    spanP isIdentChar (r ++ ' ' :: t) = (r, ' ' :: t)
+  | [], _, t => by simp [spanP, isIdentChar, MesonModel.Py.isAlnum, MesonModel.Py.isDigit, MesonModel.Py.isAlpha]
+  | c :: r, h, t => by
+    have hc := h c (by simp)
+    have ih := spanP_ident r (fun d hd => h d (by simp [hd])) t
+    simp [spanP, hc, ih]
+
+theorem tok_colon (n : Nat) (t : Str) : tok (n + 1) (':' :: t) = (.colon, eatWs t) := by
+  simp [tok, readToken]
+
+theorem tok_newline (n : Nat) (t : Str) : tok (n + 1) ('\n' :: t) = (.newline, t) := by
+  simp [tok, readToken]
+
+theorem tok_pipe_blank (n : Nat) (t : Str) : tok (n + 1) ('|' :: ' ' :: t) = (.pipe, eatWs (' ' :: t)) := by
+  simp [tok, readToken]
+
+theorem tok_pipe2 (n : Nat) (t : Str) : tok (n + 1) ('|' :: '|' :: t) = (.pipe2, eatWs t) := by
+  simp [tok, readToken]
+
+theorem ident_not_special (c : Char) (hc : isIdentChar c = true) :
+    c ≠ '\n' ∧ c ≠ '\r' ∧ c ≠ ' ' ∧ c ≠ '#' ∧ c ≠ '=' ∧ c ≠ ':' ∧ c ≠ '|' ∧ c ≠ '$' := by
+  refine ⟨?_, ?_, ?_, ?_, ?_, ?_, ?_, ?_⟩ <;> (intro h; subst h; exact absurd hc (by decide))
+
+theorem tok_ident (n : Nat) (r : Str) (hr : IdentName r) (t : Str) :
+    tok (n + 1) (r ++ ' ' :: t) = (.ident r, eatWs (' ' :: t)) := by
+  obtain ⟨hne, hall⟩ := hr
+  cases r with
+  | nil => exact absurd rfl hne
+  | cons c r' =>
+    have hc : isIdentChar c = true := hall c (by simp)
+    have hsp := spanP_ident (c :: r') hall t
+    simp only [List.cons_append] at hsp ⊢
+    obtain ⟨h1, h2, h3, h4, h5, h6, h7, _⟩ := ident_not_special c hc
+    unfold tok readToken
+    split <;> simp_all
+
+/-! ### groups of a build line -/
+
+def lits (ps : List Str) : List EvalStr := ps.map (fun p => p.map Piece.lit)
+
+structure Fits (n : Nat) (ps : List Str) : Prop where
+  good : ∀ p ∈ ps, GoodName p
+  len : ∀ p ∈ ps, p.length + 1 ≤ n
+  cnt : ps.length + 1 ≤ n
+
+theorem eatWs_joinQ (ps : List Str) (hne : ps ≠ []) (hg : ∀ p ∈ ps, GoodName p) (t : Str) :
+    eatWs (joinQ ps ++ t) = joinQ ps ++ t := by
+  match ps, hne, hg with
+  | [p], _, hg => simpa [joinQ] using eatWs_quote p (hg p (by simp)) t
+  | p :: q :: r, _, hg =>
+    simpa [joinQ, List.append_assoc] using eatWs_quote p (hg p (by simp)) (' ' :: joinQ (q :: r) ++ t)
+
+/-- a list of names followed by `blanks k ++ c1 :: t` is read back, whatever its length (possibly empty) -/
+theorem readPaths_fits (n : Nat) (ps : List Str) (hf : Fits n ps) (k : Nat) (c1 : Char) (h1 : isSep c1) (t : Str) :
+    readPaths n n (joinQ ps ++ blanks k ++ c1 :: t) [] = .ok (lits ps, c1 :: t) := by
+  have := readPaths_join n ps hf.good hf.len (by have := hf.cnt; omega) k c1 h1 t [] n hf.cnt
+  simpa [lits] using this
+
+/-- an optional group introduced by `|` (after the blank before it has been eaten) -/
+theorem optGroup_pipe (n : Nat) (ps : List Str) (hf : Fits n ps) (hne : ps ≠ []) (k : Nat) (c1 : Char) (h1 : isSep c1)
+    (t : Str) :
+    optGroup n .pipe ('|' :: ' ' :: (joinQ ps ++ blanks k ++ c1 :: t)) = .ok (lits ps, c1 :: t) := by
+  obtain ⟨m, rfl⟩ : ∃ m, n = m + 1 := ⟨n - 1, by have := hf.cnt; omega⟩
+  have he : eatWs (' ' :: (joinQ ps ++ blanks k ++ c1 :: t)) = joinQ ps ++ blanks k ++ c1 :: t := by
+    simp only [eatWs]
+    simpa [List.append_assoc] using eatWs_joinQ ps hne hf.good (blanks k ++ c1 :: t)
+  simp only [optGroup, tok_pipe_blank, he, if_true]
+  exact readPaths_fits (m + 1) ps hf k c1 h1 t
+
+theorem optGroup_pipe2 (n : Nat) (ps : List Str) (hf : Fits n ps) (hne : ps ≠ []) (k : Nat) (c1 : Char) (h1 : isSep c1)
+    (t : Str) :
+    optGroup n .pipe2 ('|' :: '|' :: ' ' :: (joinQ ps ++ blanks k ++ c1 :: t)) = .ok (lits ps, c1 :: t) := by
+  obtain ⟨m, rfl⟩ : ∃ m, n = m + 1 := ⟨n - 1, by have := hf.cnt; omega⟩
+  have he : eatWs (' ' :: (joinQ ps ++ blanks k ++ c1 :: t)) = joinQ ps ++ blanks k ++ c1 :: t := by
+    simp only [eatWs]
+    simpa [List.append_assoc] using eatWs_joinQ ps hne hf.good (blanks k ++ c1 :: t)
+  simp only [optGroup, tok_pipe2, he, if_true]
+  exact readPaths_fits (m + 1) ps hf k c1 h1 t
+
+theorem optGroup_absent (n : Nat) (g : Tok) (s : Str) (h : (tok n s).1 ≠ g) : optGroup n g s = .ok ([], s) := by
+  unfold optGroup
+  cases htk : tok n s with
+  | mk t' r =>
+    simp only [htk] at h ⊢
+    simp [h]
+
+theorem fits_nil (n : Nat) (h : 1 ≤ n) : Fits n [] := ⟨by simp, by simp, by simpa using h⟩
+
+theorem readPaths_after_blank (n : Nat) (ps : List Str) (hf : Fits n ps) (k : Nat) (c1 : Char) (h1 : isSep c1) (t : Str) :
+    readPaths n n (eatWs (' ' :: (joinQ ps ++ blanks k ++ c1 :: t))) [] = .ok (lits ps, c1 :: t) := by
+  by_cases hne : ps = []
+  · subst hne
+    have : eatWs (' ' :: (joinQ [] ++ blanks k ++ c1 :: t)) = c1 :: t := by
+      simpa [joinQ, blanks, List.replicate_succ] using eatWs_blanks_sep (k + 1) c1 h1 t
+    rw [this]
+    simpa [joinQ, blanks] using readPaths_fits n [] hf 0 c1 h1 t
+  · have : eatWs (' ' :: (joinQ ps ++ blanks k ++ c1 :: t)) = joinQ ps ++ blanks k ++ c1 :: t := by
+      simp only [eatWs]
+      simpa [List.append_assoc] using eatWs_joinQ ps hne hf.good (blanks k ++ c1 :: t)
+    rw [this]
+    exact readPaths_fits n ps hf k c1 h1 t
+
+/-- the order-only group followed by the end of the line -/
+theorem od_form (n : Nat) (od : List Str) (ho : Fits n od) (rest : Str) :
+    ∃ k c t, isSep c ∧ group sepPipe2 od ++ '\n' :: rest = blanks k ++ c :: t ∧
+      optGroup n .pipe2 (c :: t) = .ok (lits od, '\n' :: rest) ∧ (tok n (c :: t)).1 ≠ .pipe := by
+  obtain ⟨m, rfl⟩ : ∃ m, n = m + 1 := ⟨n - 1, by have := ho.cnt; omega⟩
+  by_cases hne : od = []
+  · subst hne
+    refine ⟨0, '\n', rest, .inr (.inr rfl), by simp [group, blanks], ?_, by simp [tok_newline]⟩
+    simpa [lits] using optGroup_absent (m + 1) .pipe2 ('\n' :: rest) (by simp [tok_newline])
+  · refine ⟨1, '|', '|' :: ' ' :: (joinQ od ++ blanks 0 ++ '\n' :: rest), .inr (.inl rfl), ?_, ?_, by simp [tok_pipe2]⟩
+    · simp [group, hne, sepPipe2, blanks]
+    · exact optGroup_pipe2 (m + 1) od ho hne 0 '\n' (.inr (.inr rfl)) rest
+
+/-- the implicit-dependency group, the order-only group, the end of the line -/
+theorem deps_form (n : Nat) (deps od : List Str) (hd : Fits n deps) (ho : Fits n od) (rest : Str) :
+    ∃ k c t, isSep c ∧ group sepPipe deps ++ (group sepPipe2 od ++ '\n' :: rest) = blanks k ++ c :: t ∧
+      ∃ s2, optGroup n .pipe (c :: t) = .ok (lits deps, s2) ∧ optGroup n .pipe2 s2 = .ok (lits od, '\n' :: rest) := by
+  obtain ⟨k3, c3, t3, h3, e3, hp2, hnp⟩ := od_form n od ho rest
+  by_cases hne : deps = []
+  · subst hne
+    refine ⟨k3, c3, t3, h3, by simpa [group] using e3, c3 :: t3, ?_, hp2⟩
+    simpa [lits] using optGroup_absent n .pipe (c3 :: t3) hnp
+  · refine ⟨1, '|', ' ' :: (joinQ deps ++ blanks k3 ++ c3 :: t3), .inr (.inl rfl), ?_, c3 :: t3, ?_, hp2⟩
+    · rw [e3]
+      simp [group, hne, sepPipe, blanks, List.append_assoc]
+    · exact optGroup_pipe n deps hd hne k3 c3 h3 t3
+
+theorem eatWs_ident (r : Str) (hr : IdentName r) (u : Str) : eatWs (' ' :: (r ++ u)) = r ++ u := by
+  obtain ⟨hne, hall⟩ := hr
+  cases r with
+  | nil => exact absurd rfl hne
+  | cons c r' =>
+    obtain ⟨h1, h2, h3, h4, h5, h6, h7, h8⟩ := ident_not_special c (hall c (by simp))
+    simp only [eatWs, List.cons_append]
+    unfold eatWs
+    split <;> simp_all
+
+theorem iouts_form (n : Nat) (io : List Str) (hio : Fits n io) (T : Str) :
+    ∃ k c t, isSep c ∧ group sepPipe io ++ ':' :: T = blanks k ++ c :: t ∧
+      optGroup n .pipe (c :: t) = .ok (lits io, ':' :: T) := by
+  obtain ⟨m, rfl⟩ : ∃ m, n = m + 1 := ⟨n - 1, by have := hio.cnt; omega⟩
+  by_cases hne : io = []
+  · subst hne
+    refine ⟨0, ':', T, .inl rfl, by simp [group, blanks], ?_⟩
+    simpa [lits] using optGroup_absent (m + 1) .pipe (':' :: T) (by simp [tok_colon])
+  · refine ⟨1, '|', ' ' :: (joinQ io ++ blanks 0 ++ ':' :: T), .inr (.inl rfl), ?_, ?_⟩
+    · simp [group, hne, sepPipe, blanks]
+    · exact optGroup_pipe (m + 1) io hio hne 0 ':' (.inl rfl) T
+
+theorem parseBinds_none (n : Nat) (rest : Str) (h : (tok (n + 1) rest).1 ≠ .indent) :
+    parseBinds (n + 1) (n + 1) rest [] = .ok ([], rest) := by
+  unfold parseBinds
+  cases htk : tok (n + 1) rest with
+  | mk t r =>
+    simp only [htk] at h
+    cases t <;> simp_all
+
+def synOf (b : OutBuild) : BuildSyn :=
+  { outs := lits b.outs, implOuts := lits b.implOuts, rule := b.rule, ins := lits b.ins, implIns := lits b.deps,
+    orderIns := lits b.orderdeps, vals := [], binds := [] }
+
+structure GoodLine (n : Nat) (b : OutBuild) : Prop where
+  outs : Fits n b.outs
+  outsNe : b.outs ≠ []
+  implOuts : Fits n b.implOuts
+  rule : IdentName b.rule
+  ins : Fits n b.ins
+  deps : Fits n b.deps
+  orderdeps : Fits n b.orderdeps
+
+theorem parseEdge_print (n : Nat) (b : OutBuild) (hb : GoodLine n b) (rest : Str) (hrest : (tok n rest).1 ≠ .indent) :
+    parseEdge n (printEdgeThen b rest) = .ok (synOf b, rest) := by
+  obtain ⟨m, rfl⟩ : ∃ m, n = m + 1 := ⟨n - 1, by have := hb.outs.cnt; omega⟩
+  obtain ⟨k2, c2, t2, h2, e2, s2, hp, hp2⟩ := deps_form (m + 1) b.deps b.orderdeps hb.deps hb.orderdeps rest
+  let X := joinQ b.ins ++ (group sepPipe b.deps ++ (group sepPipe2 b.orderdeps ++ '\n' :: rest))
+  let T := ' ' :: (b.rule ++ ' ' :: X)
+  obtain ⟨k1, c1, t1, h1, e1, hio⟩ := iouts_form (m + 1) b.implOuts hb.implOuts T
+  have s1 : readPaths (m + 1) (m + 1) (printEdgeThen b rest) [] = .ok (lits b.outs, c1 :: t1) := by
+    have : printEdgeThen b rest = joinQ b.outs ++ blanks k1 ++ c1 :: t1 := by
+      simp only [printEdgeThen, List.append_assoc]
+      rw [← e1]
+    rw [this]
+    exact readPaths_fits (m + 1) b.outs hb.outs k1 c1 h1 t1
+  have s3 : tok (m + 1) (':' :: T) = (.colon, b.rule ++ ' ' :: X) := by
+    rw [tok_colon]
+    exact congrArg _ (eatWs_ident b.rule hb.rule (' ' :: X))
+  have s4 : tok (m + 1) (b.rule ++ ' ' :: X) = (.ident b.rule, eatWs (' ' :: X)) := tok_ident m b.rule hb.rule X
+  have s5 : readPaths (m + 1) (m + 1) (eatWs (' ' :: X)) [] = .ok (lits b.ins, c2 :: t2) := by
+    have : X = joinQ b.ins ++ blanks k2 ++ c2 :: t2 := by
+      simp only [X, List.append_assoc]
+      rw [← e2]
+    rw [this]
+    exact readPaths_after_blank (m + 1) b.ins hb.ins k2 c2 h2 t2
+  have s8 : optGroup (m + 1) .pipeAt ('\n' :: rest) = .ok ([], '\n' :: rest) :=
+    optGroup_absent (m + 1) .pipeAt _ (by simp [tok_newline])
+  have s9 : expectNewline (m + 1) ('\n' :: rest) = .ok rest := by simp [expectNewline, tok_newline]
+  have s10 := parseBinds_none m rest hrest
+  have hemp : (lits b.outs).isEmpty = false := by
+    cases ho : b.outs with
+    | nil => exact absurd ho hb.outsNe
+    | cons _ _ => simp [lits]
+  simp [parseEdge, bind, Except.bind, pure, Except.pure, s1, hio, hemp, s3, s4, s5, hp, hp2, s8, s9, s10, synOf]
+
+theorem kw_build_ident : IdentName (kw "build") := by
+  refine ⟨by decide, ?_⟩
+  decide
+
+theorem parseTop_printBuilds (n : Nat) : ∀ (bs : List OutBuild), (∀ b ∈ bs, GoodLine n b) → 1 ≤ n →
+    ∀ (acc : List Stmt) (fuel : Nat), 2 * bs.length + 1 ≤ fuel →
+    parseTop n fuel (printBuilds bs) acc = .ok (acc.reverse ++ bs.map (fun b => Stmt.build (synOf b)))
+  | [], _, hn, acc, fuel, hf => by
+    obtain ⟨f, rfl⟩ : ∃ f, fuel = f + 1 := ⟨fuel - 1, by omega⟩
+    obtain ⟨m, rfl⟩ : ∃ m, n = m + 1 := ⟨n - 1, by omega⟩
+    simp [printBuilds, parseTop, tok, readToken]
+  | b :: r, hg, hn, acc, fuel, hf => by
+    obtain ⟨f, rfl⟩ : ∃ f, fuel = f + 2 := ⟨fuel - 2, by simp at hf; omega⟩
+    obtain ⟨m, rfl⟩ : ∃ m, n = m + 1 := ⟨n - 1, by omega⟩
+    have hb := hg b (by simp)
+    obtain ⟨X, hXdef⟩ : ∃ X, X = printEdgeThen b ('\n' :: printBuilds r) := ⟨_, rfl⟩
+    have hX : eatWs (' ' :: X) = X := by
+      rw [hXdef]
+      simp only [eatWs]
+      exact eatWs_joinQ b.outs hb.outsNe hb.outs.good _
+    have htok : tok (m + 1) (kw "build" ++ ' ' :: X) = (.ident (kw "build"), X) := by
+      rw [tok_ident m (kw "build") kw_build_ident X, hX]
+    have hedge : parseEdge (m + 1) X = .ok (synOf b, '\n' :: printBuilds r) := by
+      rw [hXdef]
+      exact parseEdge_print (m + 1) b hb ('\n' :: printBuilds r) (by simp [tok_newline])
+    have ih := parseTop_printBuilds (m + 1) r (fun x hx => hg x (by simp [hx])) hn (.build (synOf b) :: acc) f
+      (by simp at hf ⊢; omega)
+    have hnl : tok (m + 1) ('\n' :: printBuilds r) = (.newline, printBuilds r) := tok_newline m _
+    simp only [printBuilds]
+    rw [← hXdef, show "build".toList = kw "build" from rfl]
+    unfold parseTop
+    simp only [htok, if_true, hedge]
+    unfold parseTop
+    simp only [hnl]
+    rw [ih]
+    simp
+
+/-! ### sizes: the fuel the reader computes from the text is always enough -/
+
+theorem length_quoteChars_ge : ∀ (p : Str), p.length ≤ (quoteChars p).length
+  | [] => by simp [quoteChars]
+  | c :: r => by
+    have := length_quoteChars_ge r
+    simp only [quoteChars]
+    split <;> simp <;> omega
+
+theorem joinQ_sizes : ∀ (ps : List Str), (∀ p ∈ ps, GoodName p) →
+    (∀ p ∈ ps, p.length ≤ (joinQ ps).length) ∧ ps.length ≤ (joinQ ps).length
+  | [], _ => by simp [joinQ]
+  | [p], hg => by
+    have h1 := length_quoteChars_ge p
+    have hne : 1 ≤ p.length := by
+      have := (hg p (by simp)).1
+      cases p with
+      | nil => exact absurd rfl this
+      | cons _ _ => simp
+    refine ⟨?_, ?_⟩
+    · intro q hq
+      simp at hq
+      subst hq
+      simpa [joinQ] using h1
+    · simp [joinQ]; omega
+  | p :: q :: r, hg => by
+    have h1 := length_quoteChars_ge p
+    obtain ⟨ih1, ih2⟩ := joinQ_sizes (q :: r) (fun x hx => hg x (by simp [hx]))
+    refine ⟨?_, ?_⟩
+    · intro x hx
+      rcases List.mem_cons.1 hx with hx | hx
+      · subst hx
+        simp [joinQ]; omega
+      · have := ih1 x hx
+        simp [joinQ] at this ⊢; omega
+    · simp [joinQ] at ih2 ⊢; omega
+
+theorem joinQ_le_group (sep : Str) (ps : List Str) : (joinQ ps).length ≤ (group sep ps).length := by
+  unfold group
+  split
+  · next h => subst h; simp [joinQ]
+  · simp
+
+def lineSize (b : OutBuild) : Nat :=
+  (joinQ b.outs).length + (joinQ b.implOuts).length + (joinQ b.ins).length + (joinQ b.deps).length +
+    (joinQ b.orderdeps).length
+
+theorem lineSize_le (b : OutBuild) (rest : Str) : lineSize b + rest.length + 4 ≤ (printEdgeThen b rest).length := by
+  have h1 := joinQ_le_group sepPipe b.implOuts
+  have h2 := joinQ_le_group sepPipe b.deps
+  have h3 := joinQ_le_group sepPipe2 b.orderdeps
+  simp only [lineSize, printEdgeThen, List.length_append, List.length_cons]
+  omega
+
+theorem printBuilds_sizes : ∀ (bs : List OutBuild),
+    (∀ b ∈ bs, lineSize b ≤ (printBuilds bs).length) ∧ 2 * bs.length ≤ (printBuilds bs).length
+  | [] => by simp [printBuilds]
+  | b :: r => by
+    obtain ⟨ih1, ih2⟩ := printBuilds_sizes r
+    have h := lineSize_le b ('\n' :: printBuilds r)
+    simp only [List.length_cons] at h
+    refine ⟨?_, ?_⟩
+    · intro x hx
+      rcases List.mem_cons.1 hx with hx | hx
+      · subst hx
+        simp [printBuilds]; omega
+      · have := ih1 x hx
+        simp [printBuilds]; omega
+    · simp [printBuilds]; omega
+
+/-- size-free description of a line the round trip covers -/
+structure GoodLine0 (b : OutBuild) : Prop where
+  outs : ∀ p ∈ b.outs, GoodName p
+  outsNe : b.outs ≠ []
+  implOuts : ∀ p ∈ b.implOuts, GoodName p
+  rule : IdentName b.rule
+  ins : ∀ p ∈ b.ins, GoodName p
+  deps : ∀ p ∈ b.deps, GoodName p
+  orderdeps : ∀ p ∈ b.orderdeps, GoodName p
+
+theorem fits_of_size (n : Nat) (ps : List Str) (hg : ∀ p ∈ ps, GoodName p) (h : (joinQ ps).length + 1 ≤ n) : Fits n ps := by
+  obtain ⟨h1, h2⟩ := joinQ_sizes ps hg
+  exact ⟨hg, fun p hp => by have := h1 p hp; omega, by omega⟩
+
+theorem goodLine_of_size (n : Nat) (b : OutBuild) (hb : GoodLine0 b) (h : lineSize b + 1 ≤ n) : GoodLine n b := by
+  unfold lineSize at h
+  exact ⟨fits_of_size n _ hb.outs (by omega), hb.outsNe, fits_of_size n _ hb.implOuts (by omega), hb.rule,
+    fits_of_size n _ hb.ins (by omega), fits_of_size n _ hb.deps (by omega), fits_of_size n _ hb.orderdeps (by omega)⟩
+
+/-- the manifest reader maps the printed build statements back to the statements -/
+theorem parse_printBuilds (bs : List OutBuild) (hg : ∀ b ∈ bs, GoodLine0 b) :
+    parse (printBuilds bs) = .ok (bs.map (fun b => Stmt.build (synOf b))) := by
+  obtain ⟨h1, h2⟩ := printBuilds_sizes bs
+  unfold parse
+  have := parseTop_printBuilds ((printBuilds bs).length + 1) bs
+    (fun b hb => goodLine_of_size _ b (hg b hb) (by have := h1 b hb; omega)) (by omega) [] ((printBuilds bs).length + 1)
+    (by omega)
+  simpa using this
+
 end MesonModel.Ninja
